@@ -31,7 +31,7 @@ def run(chk):
     for curve in vlib.REAL_CURVES + ["toy31723"]:
         pt, sc = SIZES[curve]
         cfg = chk.path("codec_%s.cfg" % curve)
-        open(cfg, "w").write("SPECIFICATION CSpec\nCONSTANTS\n  PtLen = %d\n  ScLen = %d\n  MaxK = %d\nINVARIANT Sound\nINVARIANT Emit\nCHECK_DEADLOCK FALSE\n"
+        open(cfg, "w").write("SPECIFICATION CSpec\nCONSTANTS\n  PtLen = %d\n  ScLen = %d\n  MaxK = %d\nINVARIANT Sound\nINVARIANT RefinesInd\nINVARIANT Emit\nCHECK_DEADLOCK FALSE\n"
                              % (pt, sc, maxk if curve in vlib.REAL_CURVES else 2))
         r = vlib.tlc_mc(chk, "MC_Codec.tla", cfg, workers=8)
         tests = collections.defaultdict(list)
@@ -72,6 +72,10 @@ def run(chk):
                                       "; ".join(bad))
     # (B1) the composed machine: table histories x byte-level adversary through System's prover and verifier (MC_Library)
     vlib.library_mc(chk, probes=("NV_ShapeRejected",))
+    # unbounded: the decoder abstraction CodecInd (arbitrary streams, arbitrary counts) has an inductive invariant - memory and time linear in
+    # what was read, "ok" only after the final scalars, no invalid token accepted - discharged by Apalache; RefinesInd (TLC, above) ties the
+    # concrete decoder runs to it
+    vlib.apalache_inductive(chk, "CodecInd.tla")
     # (B3) byte-level sessions on toy curves: what to_bytes emitted is the token stream Library!Tokens spells for the proof (field order,
     # counts, size law, k = log2 of the padded gate count), and from_bytes on honest, truncated, bit-flipped, overwritten, count-edited and
     # extended encodings returns what the decoder state machine returns, with the proof object the tokens stand for
